@@ -538,7 +538,9 @@ fn check_getter(which: usize, a: &[String], b: &[String], flag: u8) -> CheckResu
         2 => {
             // checksum triples, one per line
             let triples: Vec<(String, usize, String)> = b.iter().enumerate().map(|(i, x)| (format!("{}{}", x, "0123abcd"), i * 977 + flag as usize, format!("{}_{}.dsc", x, i))).collect();
-            let body: String = triples.iter().map(|(h, s, n)| format!(" {} {} {}\n", h, s, n)).collect();
+            // columns are separated by one blank, or aligned with several blanks / a tab as in real Release files
+            let sep = |k: usize| [" ", "  ", "       ", "\t"][if flag & 2 == 2 { (flag as usize / 4 + k) % 4 } else { 0 }];
+            let body: String = triples.iter().enumerate().map(|(i, (h, s, n))| format!(" {}{}{}{}{}\n", h, sep(i), s, sep(i + 1), n)).collect();
             let text = format!("Package: x\nFiles:\n{}Checksums-Sha1:\n{}Checksums-Sha256:\n{}Checksums-Sha512:\n{}MD5Sum:\n{}SHA256:\n{}", body, body, body, body, body, body);
             let s = ll::apt::Source::from_str(&text).map_err(|e| Failure { assertion: "infra/getter".into(), message: format!("{:?}: {}", text, e) })?;
             ensure_eq!(s.files().into_iter().map(|c| (c.md5sum, c.size, c.filename)).collect::<Vec<_>>(), triples, "getter/files", "Files of {:?}", text);
@@ -567,6 +569,11 @@ fn check_getter(which: usize, a: &[String], b: &[String], flag: u8) -> CheckResu
             let rt = format!("Origin: x\nAcquire-By-Hash: {}\n", word);
             let r = ll::apt::Release::from_str(&rt).unwrap();
             ensure_eq!(r.acquire_by_hash(), yes, "getter/acquire-by-hash", "{:?}", rt);
+            // dates as archives write them (zone spelled "UTC") and as RFC 2822 writes them
+            let (dtext, secs) = [("Sat, 24 Aug 2024 14:13:49 UTC", 1724508829i64), ("Thu, 23 Apr 2020 17:19:19 UTC", 1587662359), ("Sat, 02 Jul 2022 09:29:16 +0000", 1656754156), ("Mon, 30 Dec 2024 00:00:00 +0530", 1735497000)][(flag as usize / 2) % 4];
+            let rd = ll::apt::Release::from_str(&format!("Origin: x\nDate: {}\nValid-Until: {}\n", dtext, dtext)).unwrap();
+            ensure_eq!(rd.date().map(|d| d.timestamp()), Some(secs), "getter/release-date", "Date: {:?}", dtext);
+            ensure_eq!(rd.valid_until().map(|d| d.timestamp()), Some(secs), "getter/release-valid-until", "Valid-Until: {:?}", dtext);
             // an absent flag reads as "not set"
             let r0 = ll::apt::Release::from_str("Origin: x\n").unwrap();
             ensure_eq!(r0.acquire_by_hash(), false, "getter/acquire-by-hash-absent", "absent field");
